@@ -38,8 +38,14 @@ Inductive cond := CVal (b : bool) | CErr (e : err) | CPanics (v : option err).
     conditionalSubjectHandler; [s_if = None] is the defaultExecutionCondition *)
 Record step := { s_if : option cond; s_out : outcome; s_continue : bool }.
 
-(** an error handler: the three real mechanisms, or a stub that fails / panics *)
-Inductive ehkind := EhReal (m : mechanism) | EhFails (e : err) | EhPanics (v : option err).
+(** an error handler: the three real mechanisms, or a stub that fails / panics,
+    or a HYPOTHETICAL handler that reports success (returns nil) without
+    recording a pipeline error.  No such mechanism exists in heimdall (the three
+    real ones all call ctx.SetPipelineError before returning nil, see
+    [C12.Model.mech_exec]); it is in the model to make explicit what the veto of
+    a failed pipeline rests on, and so that the correspondence stream also
+    exercises the path "Finalize finds no recorded error". *)
+Inductive ehkind := EhReal (m : mechanism) | EhFails (e : err) | EhPanics (v : option err) | EhSilent.
 Record ehstep := { e_if : option cond; e_kind : ehkind }.
 
 Record rule := {
@@ -113,8 +119,11 @@ Fixpoint run_steps (l : list step) : stage_res :=
 
 (** ** Error pipeline *)
 
-(** the private sentinel errErrorHandlerNotApplicable of internal/rules *)
-Definition not_applicable : err := Sentinel (KOther 0%nat).
+(** the private sentinel errErrorHandlerNotApplicable of internal/rules.  No
+    mechanism, CEL program or authenticator can return (or wrap) it: it is
+    unexported; only conditionalErrorHandler produces it.  The generated error
+    trees of the correspondence stream therefore never contain [KOther 99]. *)
+Definition not_applicable : err := Sentinel (KOther 99%nat).
 
 (** result of the error pipeline: the error returned by ruleImpl.Execute (None =
     nil) and the pipeline error recorded in the request context *)
@@ -130,6 +139,7 @@ Definition eh_exec (h : ehstep) (cause : err) : eh_res :=
       | EhReal m => let hd := mech_exec m cause in EhRet (hd_ret hd) (hd_pipeline hd)
       | EhFails e => EhRet (Some e) None
       | EhPanics v => EhPanic v
+      | EhSilent => EhRet None None
       end
   | Skip => EhRet (Some not_applicable) None
   | CondFail e => EhRet (Some e) None
@@ -143,7 +153,7 @@ Fixpoint run_eh (l : list ehstep) (cause : err) : eh_res :=
   | h :: r =>
       match eh_exec h cause with
       | EhRet (Some e) p =>
-          if is_ (TKind (KOther 0%nat)) e then run_eh r cause else EhRet (Some e) p
+          if is_ (TKind (KOther 99%nat)) e then run_eh r cause else EhRet (Some e) p
       | EhRet None p => EhRet None p
       | EhPanic v => EhPanic v
       end
